@@ -524,6 +524,54 @@ pub fn catch<T>(f: impl FnOnce() -> T) -> Result<T, String> {
     }
 }
 
+// ---------------------------------------------------------------------------------------
+// compile-time probe (autoref specialisation): `(&DefaultProbe::<T>(PhantomData)).make()` is Some(T::default()) if the
+// tree under test implements Default for T and None otherwise - the harness compiles against both
+pub struct DefaultProbe<T>(pub std::marker::PhantomData<T>);
+pub trait ViaDefault<T> {
+    fn make(&self) -> Option<T>;
+}
+impl<T: Default> ViaDefault<T> for DefaultProbe<T> {
+    fn make(&self) -> Option<T> {
+        Some(T::default())
+    }
+}
+pub trait NoDefault<T> {
+    fn make(&self) -> Option<T>;
+}
+impl<T> NoDefault<T> for &DefaultProbe<T> {
+    fn make(&self) -> Option<T> {
+        None
+    }
+}
+
+
+/// Run `probe` while the calling thread is unwinding from an unrelated panic (inside the destructor of a guard, as an
+/// application object that says goodbye in its Drop does). Code that asks `std::thread::panicking()` behaves
+/// differently there. The outer panic is caught here; the probe's own panics are caught inside the destructor and
+/// reported as Err. Returns what the probe returned.
+pub fn while_unwinding<T: Send + 'static>(probe: impl FnOnce() -> T + Send + 'static) -> Result<T, String> {
+    struct Guard<T, F: FnOnce() -> T>(Option<F>, std::sync::Arc<Mutex<Option<Result<T, String>>>>);
+    impl<T, F: FnOnce() -> T> Drop for Guard<T, F> {
+        fn drop(&mut self) {
+            if let Some(f) = self.0.take() {
+                let r = catch(f);
+                if let Ok(mut slot) = self.1.lock() {
+                    *slot = Some(r);
+                }
+            }
+        }
+    }
+    let slot = std::sync::Arc::new(Mutex::new(None));
+    let s2 = slot.clone();
+    let _ = catch(move || -> () {
+        let _guard = Guard(Some(probe), s2);
+        panic!("unrelated panic (harness): the probe runs while this one unwinds");
+    });
+    let r = slot.lock().map_err(|_| "harness: result slot poisoned".to_string())?.take();
+    r.unwrap_or_else(|| Err("the probe did not run".into()))
+}
+
 /// Run `probe` inside the destructor of a thread-local value while a thread shuts down. The thread first creates that
 /// value, then runs `warm` (which uses the library, so that any per-thread state of the library is created *after* the
 /// value and therefore destroyed *before* it), then exits. A library that works from a global context works here too;
